@@ -23,3 +23,6 @@ func (h *ServerHandler) VerifC13Read(ctx context.Context, path, globID string, t
 
 // VerifC13Lines: the delivery queue (the harness drains it so that a follow never blocks on it).
 func (h *ServerHandler) VerifC13Lines() chan *line.Line { return h.lines }
+
+// VerifC13ServerMessages: the server message queue (drained by the harness).
+func (h *ServerHandler) VerifC13ServerMessages() chan string { return h.serverMessages }
